@@ -2571,6 +2571,19 @@ impl<T: PPGEvaluatorStrategy> PPGEvaluator<T> {
                             //continue;
                         }
                     }
+                    JobState::Ephemeral(_) if !self.history.contains_key(&job.job_id) => {
+                        // same as an output job without history: it can't be validated
+                        // against anything. (Happens when it failed in the last run -
+                        // its own record is gone, the records of its inputs are not.)
+                        Self::set_upstream_edges(&mut self.dag, node_idx, Required::Yes);
+                        set_node_state!(
+                            job,
+                            JobState::Ephemeral(JobStateEphemeral::NotReady(
+                                ValidationStatus::Invalidated,
+                            )),
+                            self.gen
+                        );
+                    }
                     JobState::Ephemeral(_) => {
                         //we're going reverse topological, so at this point,
                         //all downstreams have declared whether they're required or not.
